@@ -1281,6 +1281,95 @@ pub fn build_cvar(axes: usize, num_cvts: usize, variant: u64) -> Vec<u8> {
     t
 }
 
+/// See [`Surgery::InstallVarSimple`]. Returns the new gvar.
+pub fn var_simple(head: &[u8], loca: &[u8], glyf: &[u8], gvar: &[u8], g: u16, amp: i16, variant: u64) -> Result<Vec<u8>, String> {
+    let bail = |m: &str| -> String { format!("surgery: var simple: {}", m) };
+    let long = be16(head, 50).ok_or_else(|| bail("head"))? == 1;
+    let off = |i: usize| -> Option<usize> {
+        if long {
+            be32(loca, 4 * i).map(|v| v as usize)
+        } else {
+            be16(loca, 2 * i).map(|v| usize::from(v) * 2)
+        }
+    };
+    let (s, e) = (off(usize::from(g)).ok_or_else(|| bail("loca"))?, off(usize::from(g) + 1).ok_or_else(|| bail("loca"))?);
+    if e < s + 12 || e > glyf.len() {
+        return Err(bail("glyph slot"));
+    }
+    let nc = i16::from_be_bytes([glyf[s], glyf[s + 1]]);
+    if nc <= 0 {
+        return Err(bail("not a simple glyph"));
+    }
+    let last_end = be16(glyf, s + 10 + 2 * (nc as usize - 1)).ok_or_else(|| bail("endPts"))?;
+    let n = usize::from(last_end) + 1 + 4;
+    if n > 64 {
+        return Err(bail("too many points"));
+    }
+    let axes = usize::from(be16(gvar, 4).ok_or_else(|| bail("gvar"))?);
+    let gcount = usize::from(be16(gvar, 12).ok_or_else(|| bail("gvar"))?);
+    let gflags = be16(gvar, 14).ok_or_else(|| bail("gvar"))?;
+    let array = be32(gvar, 16).ok_or_else(|| bail("gvar"))? as usize;
+    if usize::from(g) >= gcount || axes == 0 {
+        return Err(bail("glyph not in gvar"));
+    }
+    let goff = |i: usize| -> Option<usize> {
+        if gflags & 1 == 1 {
+            be32(gvar, 20 + 4 * i).map(|v| v as usize)
+        } else {
+            be16(gvar, 20 + 2 * i).map(|v| usize::from(v) * 2)
+        }
+    };
+    let (vs, ve) = (
+        array + goff(usize::from(g)).ok_or_else(|| bail("gvar offsets"))?,
+        array + goff(usize::from(g) + 1).ok_or_else(|| bail("gvar offsets"))?,
+    );
+    if ve < vs || ve > gvar.len() {
+        return Err(bail("gvar data range"));
+    }
+    let axis = (variant / 16) as usize % axes;
+    let neg = variant / 64 % 2 == 1;
+    let delta = |k: usize, which: u64| -> i16 {
+        if k + 4 >= n {
+            return 0; // phantom points
+        }
+        match (variant / 128 + which) % 4 {
+            0 => if k % 2 == 0 { amp } else { amp.saturating_neg() },
+            1 => amp,
+            2 => ((i32::from(amp) * k as i32) / n as i32) as i16,
+            _ => 0,
+        }
+    };
+    let pack = |which: u64| -> Vec<u8> {
+        let mut o = vec![0x40 | (n - 1) as u8];
+        for k in 0..n {
+            o.extend_from_slice(&delta(k, which).to_be_bytes());
+        }
+        o
+    };
+    let mut ser = vec![0u8];
+    ser.extend(pack(0));
+    ser.extend(pack(1));
+    let mut data = Vec::new();
+    data.extend_from_slice(&1u16.to_be_bytes());
+    data.extend_from_slice(&((4 + 4 + 2 * axes) as u16).to_be_bytes());
+    data.extend_from_slice(&(ser.len() as u16).to_be_bytes());
+    data.extend_from_slice(&0xA000u16.to_be_bytes());
+    for k in 0..axes {
+        let v: i16 = if k == axis { if neg { -0x4000 } else { 0x4000 } } else { 0 };
+        data.extend_from_slice(&v.to_be_bytes());
+    }
+    data.extend(ser);
+    if data.len() > ve - vs {
+        return Err(bail("gvar slot too small"));
+    }
+    let mut new_gvar = gvar.to_vec();
+    new_gvar[vs..vs + data.len()].copy_from_slice(&data);
+    for x in &mut new_gvar[vs + data.len()..ve] {
+        *x = 0;
+    }
+    Ok(new_gvar)
+}
+
 /// See [`Surgery::InstallVarComposite`]. Returns the new (glyf, gvar).
 pub fn var_composite(
     head: &[u8],
@@ -1632,6 +1721,13 @@ pub fn apply(disk: &mut Disk, s: &Surgery) -> Result<(), String> {
             let (head, loca, glyf, gvar) = (get("head")?, get("loca")?, get("glyf")?, get("gvar")?);
             let (ng, nv) = var_composite(&head, &loca, &glyf, &gvar, *glyph, *a, *b, *dx, *dy, *variant)?;
             disk.tables.insert(tag_from_str("glyf"), Rc::new(ng));
+            disk.tables.insert(tag_from_str("gvar"), Rc::new(nv));
+            Ok(())
+        }
+        Surgery::InstallVarSimple { glyph, amp, variant } => {
+            let get = |t: &str| disk.tables.get(&tag_from_str(t)).cloned().ok_or(format!("surgery: no {}", t));
+            let (head, loca, glyf, gvar) = (get("head")?, get("loca")?, get("glyf")?, get("gvar")?);
+            let nv = var_simple(&head, &loca, &glyf, &gvar, *glyph, *amp, *variant)?;
             disk.tables.insert(tag_from_str("gvar"), Rc::new(nv));
             Ok(())
         }
